@@ -491,3 +491,13 @@ func (st *PState) Iters() []*IterVal {
 	sort.Slice(out, func(i, j int) bool { return out[i].IdxID < out[j].IdxID })
 	return out
 }
+
+// pcHas reports whether t is literally one of the path-condition conjuncts.
+func (st *PState) pcHas(t T) bool {
+	for _, p := range st.pc {
+		if p.S == t.S {
+			return true
+		}
+	}
+	return false
+}
